@@ -127,13 +127,10 @@ class WorldFile(FileList):
         self._modify(atom_inst, FileList.remove)
 
     def _modify(self, atom_inst, func):
-        if atom_inst.slot:
-            for slot in atom_inst.slot:
-                if slot == "0":
-                    new_atom_inst = atom(atom_inst.key)
-                else:
-                    new_atom_inst = atom(atom_inst.key + ":" + slot)
-                func(self, new_atom_inst)
+        # atom.slot is a single slot string (or None), not a sequence of slots
+        slot = atom_inst.slot
+        if slot and slot != "0":
+            new_atom_inst = atom(f"{atom_inst.key}:{slot}")
         else:
-            atom_inst = atom(atom_inst.key)
-            func(self, atom_inst)
+            new_atom_inst = atom(atom_inst.key)
+        func(self, new_atom_inst)
